@@ -285,7 +285,7 @@ impl Compiler {
             }
             Stmt::Block(stmts) => self.compile_block_statement(stmts)?,
             Stmt::Let(name, value) => {
-                let symbol = self.symbols.define(name);
+                let symbol = self.symbols.define(name)?;
                 self.compile_expression(value)?;
                 let op = if symbol.scope == Scope::Global {
                     OpCode::SetGlobal
@@ -616,7 +616,7 @@ impl Compiler {
                 body,
             } => {
                 let symbol = if !name.is_empty() {
-                    Some(self.symbols.define(name))
+                    Some(self.symbols.define(name)?)
                 } else {
                     None
                 };
@@ -628,7 +628,7 @@ impl Compiler {
                 // Compile function in a new scope
                 self.symbols.new_context();
                 for p in parameters {
-                    self.symbols.define(p);
+                    self.symbols.define(p)?;
                 }
 
                 let pos_start_function = self.instructions.len();
